@@ -2,6 +2,9 @@ import ZapVerif.Model.Core
 import ZapVerif.Proofs.Core
 import ZapVerif.Gen.FrontEnds
 import ZapVerif.Proofs.CoreSync
+import ZapVerif.Proofs.TransCores
+import ZapVerif.Model.TransCEAddX
+import ZapVerif.Proofs.TransLogger
 /-! # C05 — an entry is written exactly where its level is enabled; reported levels agree
 
 All theorems are about the core algebra of `Model/Core.lean` (arbitrary trees, arbitrary — also non-monotone —
@@ -251,5 +254,264 @@ theorem sync_reaches_every_io_leaf (μ : Val) (c : Core) (w : W) :
 
 example : syncIds (syncEv (fun _ => 0) (.tee [.lazy 0 (.leaf 1 (.atomic 0) true []) [], .nop, .hooked (.leaf 2 (.atomic 0) true []) 7]) {}).evs = [1, 2] := by
   decide
+
+end ZapVerif.C05
+
+/-! ## `Check` / `Enabled` of the cores ARE the source (tables `Gen/TransCores.lean`, `Gen/TransCEAdd.lean`)
+
+The clauses of `Cores.check` and `Cores.enabled` (Model/Core.lean) are the translated Go functions.  A `*CheckedEntry`
+is nil (`none`) or its list of cores; `P.en` is the receiver's level enabler, `P.cen c` / `P.chk c` are a sub-core's
+`Enabled` / `Check`:
+* `AddCore` appends to the cores (a nil entry becomes a fresh one) — the `ce ++ [item]` of every clause;
+* `ioCore.Check`: `if en l then ce ++ [self] else ce` (clause `leaf`);
+* `multiCore.Check`: the left fold of the sub-cores' `Check` (clause `tee` / `checkAll`); `multiCore.Enabled`: `any`;
+* `hooked.Check`: `let d := check c ce; if d.length > ce.length then d ++ [self] else d` (clause `hooked`, the repaired
+  rule), for sub-cores that only ever extend the entry;
+* `levelFilterCore.Enabled` = the new enabler; `levelFilterCore.Check`: `if en l then check c ce else ce` (clause `incr`). -/
+namespace ZapVerif.C05
+set_option linter.unusedSimpArgs false
+open ZapVerif ZapVerif.GoMini ZapVerif.TransCores
+
+/-- `(*CheckedEntry).AddCore(ent, core)`: a nil receiver is replaced by a fresh entry for `ent`; the core is appended -/
+theorem AddCore_matches_source (isnil dirty : Bool) (eo after cores : List Val) (entry self ent core : Val) (fuel : Nat) :
+    run TransCEAdd.X (fuel + 1) "AddCore" [ent, core] (TransCEAdd.ceFld isnil dirty eo after cores entry self) =
+      .done [self] (if isnil then TransCEAdd.ceFld false false [] [] [core] ent self
+                    else TransCEAdd.ceFld false dirty eo after (cores ++ [core]) entry self) := by
+  refine run_of_fin TransCEAdd.X _ _ Gen.TransCEAdd.AddCore [ent, core] _ _ _ rfl rfl ?_
+  show (exec TransCEAdd.X (fuel + 1) Gen.TransCEAdd.AddCore_body ⟨[("p0", ent), ("p1", core)], _⟩).fin = _
+  rw [exec_succ]
+  cases isnil <;> simp [Gen.TransCEAdd.AddCore_body, TransCEAdd.X]
+
+open ZapVerif.Gen.TransCores
+
+/-- `(*ioCore).Check(ent, ce)` -/
+theorem ioCore_Check_matches_source (P : Par) (l : Int) (ce : Option (List Val)) (enc out self : Val) (ev : List Val)
+    (fuel : Nat) :
+    run (X P) (fuel + 1) "ioCore_Check" [entV l, ceV ce] (ioFld enc out self ev) =
+      .done [ceV (if P.en l then addCore ce self else ce)] (ioFld enc out self ev) := by
+  refine run_of_fin (X P) _ _ Gen.TransCores.ioCore_Check [entV l, ceV ce] _ _ _ rfl rfl ?_
+  show (exec (X P) (fuel + 1) ioCore_Check_body ⟨[("p0", entV l), ("p1", ceV ce)], _⟩).fin = _
+  rw [exec_succ]
+  cases h : P.en l <;> simp [ioCore_Check_body, entV, indexVal, h]
+
+/-- `(*levelFilterCore).Enabled(lvl)` is the new enabler alone -/
+theorem levelFilterCore_Enabled_matches_source (P : Par) (l : Int) (core level self : Val) (ev : List Val) (fuel : Nat) :
+    run (X P) (fuel + 1) "levelFilterCore_Enabled" [.int l] (lfFld core level self ev) =
+      .done [.bool (P.en l)] (lfFld core level self ev) := by
+  refine run_of_fin (X P) _ _ Gen.TransCores.levelFilterCore_Enabled [.int l] _ _ _ rfl rfl ?_
+  show (exec (X P) (fuel + 1) levelFilterCore_Enabled_body ⟨[("p0", .int l)], _⟩).fin = _
+  rw [exec_succ]
+  simp [levelFilterCore_Enabled_body]
+
+/-- `(*levelFilterCore).Check(ent, ce)`: the wrapped core is consulted only when the new enabler enables the level -/
+theorem levelFilterCore_Check_matches_source (P : Par) (l : Int) (ce : Option (List Val)) (core level self : Val)
+    (ev : List Val) (fuel : Nat) :
+    run (X P) (fuel + 2) "levelFilterCore_Check" [entV l, ceV ce] (lfFld core level self ev) =
+      .done [ceV (if P.en l then P.chk core (entV l) ce else ce)] (lfFld core level self ev) := by
+  refine run_of_fin (X P) _ _ Gen.TransCores.levelFilterCore_Check [entV l, ceV ce] _ _ _ rfl rfl ?_
+  show (exec (X P) (fuel + 2) levelFilterCore_Check_body ⟨[("p0", entV l), ("p1", ceV ce)], _⟩).fin = _
+  rw [exec_succ]
+  have hen : ∀ σ : State, retK σ [.loc "l0"] "levelFilterCore_Enabled"
+      (exec (X P) (fuel + 1) levelFilterCore_Enabled_body ⟨[("p0", .int l)], lfFld core level self ev⟩) =
+      .normal (({ σ with fld := lfFld core level self ev } : State).assign1 (.loc "l0") (.bool (P.en l))) := by
+    intro σ
+    refine retK_of_fin1 σ _ _ _ _ _ ?_
+    rw [exec_succ]; simp [levelFilterCore_Enabled_body]
+  cases h : P.en l <;> simp [levelFilterCore_Check_body, entV, indexVal, hen, h]
+
+/-- number of cores of a (possibly nil) entry -/
+def lenCE (ce : Option (List Val)) : Nat := (ce.getD []).length
+
+/-- `(*hooked).Check(ent, ce)`: the wrapped core decides; the hooked core adds itself iff the core COUNT grew -/
+theorem hooked_Check_matches_source (P : Par) (l : Int) (ce : Option (List Val)) (core : Val) (funcs : List Val)
+    (self : Val) (ev : List Val) (fuel : Nat) :
+    run (X P) (fuel + 1) "hooked_Check" [entV l, ceV ce] (hkFld core funcs self ev) =
+      .done [ceV (match P.chk core (entV l) ce with
+                  | none => ce
+                  | some ds => if ds.length > lenCE ce then some (ds ++ [self]) else some ds)]
+        (hkFld core funcs self ev) := by
+  refine run_of_fin (X P) _ _ Gen.TransCores.hooked_Check [entV l, ceV ce] _ _ _ rfl rfl ?_
+  show (exec (X P) (fuel + 1) hooked_Check_body ⟨[("p0", entV l), ("p1", ceV ce)], _⟩).fin = _
+  rw [exec_succ]
+  have hpos : ∀ k : Nat, ¬ ((k : Int) + 1 = 0) := by intro k; omega
+  cases ce with
+  | none =>
+    cases hd : P.chk core (entV l) none with
+    | none => simp [hooked_Check_body, hd, lenCE]
+    | some ds =>
+      by_cases hg : ds.length > 0
+      · have hg' : (0 : Int) < ds.length := by omega
+        simp [hooked_Check_body, hd, lenCE, hg, hg', addCore]
+      · have hg' : ¬ (0 : Int) < ds.length := by omega
+        simp [hooked_Check_body, hd, lenCE, hg, hg']
+  | some cs =>
+    cases hd : P.chk core (entV l) (some cs) with
+    | none => simp [hooked_Check_body, hd, lenCE]
+    | some ds =>
+      by_cases hg : ds.length > cs.length
+      · have hg' : (cs.length : Int) < ds.length := by omega
+        simp [hooked_Check_body, hd, lenCE, hg, hg', addCore]
+      · have hg' : ¬ (cs.length : Int) < ds.length := by omega
+        simp [hooked_Check_body, hd, lenCE, hg, hg']
+
+/-- … which is the `hooked` clause of `Cores.check` on the core lists (nil ≙ []), for a wrapped core that only
+    ever extends the entry it is given (every clause of `Cores.check` does: `check_extends`-style facts of
+    Proofs/Core.lean) -/
+theorem hooked_Check_is_model_clause (d ce : Option (List Val)) (self : Val)
+    (hext : d = none → ce.getD [] = []) :
+    ((match d with
+      | none => ce
+      | some ds => if ds.length > lenCE ce then some (ds ++ [self]) else some ds).getD []) =
+      (if (d.getD []).length > (ce.getD []).length then d.getD [] ++ [self] else d.getD []) := by
+  cases d with
+  | none => simp [hext rfl]
+  | some ds =>
+    by_cases h : ds.length > lenCE ce
+    · have h' : (ce.getD []).length < ds.length := h
+      simp [h, h']
+    · have h' : ¬ (ce.getD []).length < ds.length := h
+      simp [h, h']
+
+/-- state of `multiCore.Check` at the loop head: the entry so far, and the index variable once bound -/
+def mccAbs (mc : List Val) (ent : Val) (ev : List Val) (a : Option (List Val) × Option Int) : State :=
+  ⟨[("p0", ent), ("p1", ceV a.1)] ++ (match a.2 with | none => [] | some i => [("l0", .int i)]), mcFld mc ev⟩
+
+/-- the loop of `multiCore.Check`: the sub-cores' `Check` folded over the entry, left to right -/
+theorem multiCore_Check_loop_matches_source (P : Par) (mc : List Val) (ent : Val) (ce : Option (List Val)) (ev : List Val)
+    (rec : Stmt → State → GoMini.Out) :
+    ∃ t, execS (X P) rec multiCore_Check_loop0 (mccAbs mc ent ev (ce, none)) =
+      .normal (mccAbs mc ent ev (mc.foldl (fun acc c => P.chk c ent acc) ce, t)) := by
+  have hiter : ∀ (a : Option (List Val) × Option Int) (i : Nat) (c : Val), mc[i]? = some c →
+      (match multiCore_Check_loop0 with
+        | .range k v _ body => execS (X P) rec body (((mccAbs mc ent ev a).assign1 k (.int i)).assign1 v (id c))
+        | _ => .oof) = .normal (mccAbs mc ent ev (P.chk c ent a.1, some (i : Int))) := by
+    intro ⟨acc, t⟩ i c hc
+    have hidx := indexVal_list_map id mc i c hc
+    simp only [List.map_id, id] at hidx
+    cases t <;> simp [multiCore_Check_loop0, mccAbs, hidx]
+  unfold multiCore_Check_loop0 at hiter ⊢
+  rw [execS_range]
+  have hfold := rangeRun_fold_at (execS (X P) rec _) _ _ (mccAbs mc ent ev) id
+    (fun a i c => (P.chk c ent a.1, some (i : Int))) mc hiter mc 0 (ce, none) (by simp)
+  simp only [List.map_id] at hfold
+  refine ⟨((mc.zipIdx).foldl (fun (a : Option (List Val) × Option Int) q => (P.chk q.1 ent a.1, some (q.2 : Int))) (ce, none)).2, ?_⟩
+  have hcs : evalE (X P) (mccAbs mc ent ev (ce, none)) (.fld "mc") = .ok (.list mc) := by simp [mccAbs]
+  rw [hcs]
+  simp only [Res.out_ok]
+  refine Eq.trans hfold ?_
+  congr 2
+  refine Prod.ext ?_ rfl
+  have key : ∀ (l : List Val) (k : Nat) (a : Option (List Val) × Option Int),
+      ((l.zipIdx k).foldl (fun (a : Option (List Val) × Option Int) q => (P.chk q.1 ent a.1, some (q.2 : Int))) a).1 =
+        l.foldl (fun acc c => P.chk c ent acc) a.1 := by
+    intro l
+    induction l with
+    | nil => intro k a; rfl
+    | cons c r ih => intro k a; simp only [List.zipIdx_cons, List.foldl_cons]; exact ih _ _
+  exact key mc 0 (ce, none)
+
+/-- `multiCore.Check(ent, ce)` ≡ the `tee` clause (`checkAll`): every sub-core is consulted, in order, each on the
+    entry the previous ones returned -/
+theorem multiCore_Check_matches_source (P : Par) (mc : List Val) (l : Int) (ce : Option (List Val)) (ev : List Val)
+    (fuel : Nat) :
+    run (X P) (fuel + 1) "multiCore_Check" [entV l, ceV ce] (mcFld mc ev) =
+      .done [ceV (mc.foldl (fun acc c => P.chk c (entV l) acc) ce)] (mcFld mc ev) := by
+  refine run_of_fin (X P) _ _ Gen.TransCores.multiCore_Check [entV l, ceV ce] _ _ _ rfl rfl ?_
+  show (exec (X P) (fuel + 1) multiCore_Check_body ⟨[("p0", entV l), ("p1", ceV ce)], _⟩).fin = _
+  rw [exec_succ]
+  obtain ⟨t, hl⟩ := multiCore_Check_loop_matches_source P mc (entV l) ce ev (exec (X P) fuel)
+  simp only [mccAbs, List.append_nil] at hl
+  cases t <;> simp [multiCore_Check_body, hl]
+
+/-- state of `multiCore.Enabled` in its loop -/
+def mceAbs (mc : List Val) (l : Int) (ev : List Val) (t : Option Int) : State :=
+  ⟨[("p0", .int l)] ++ (match t with | none => [] | some i => [("l0", .int i)]), mcFld mc ev⟩
+
+/-- the loop of `multiCore.Enabled`: returns `true` at the first sub-core that enables the level -/
+theorem multiCore_Enabled_loop_matches_source (P : Par) (mc : List Val) (l : Int) (ev : List Val)
+    (rec : Stmt → State → GoMini.Out) :
+    ∀ (ys : List Val) (i : Nat) (t : Option Int), mc.drop i = ys →
+      ∃ t', rangeRun (execS (X P) rec multiCore_Enabled_loop0.rbody) (.loc "l0") .blank ys i (mceAbs mc l ev t) =
+        if ys.any (fun c => P.cen c l) then .ret [.bool true] (mceAbs mc l ev t') else .normal (mceAbs mc l ev t')
+  | [], _, t, _ => ⟨t, by simp [rangeRun]⟩
+  | y :: ys, i, t, hd => by
+    have hy : mc[i]? = some y := by
+      have := congrArg (fun l => l[0]?) hd
+      simpa using this
+    have hd' : mc.drop (i + 1) = ys := by
+      have := congrArg (List.drop 1) hd
+      simpa [List.drop_drop, Nat.add_comm] using this
+    have hidx := indexVal_list_map id mc i y hy
+    simp only [List.map_id, id] at hidx
+    obtain ⟨t', ih⟩ := multiCore_Enabled_loop_matches_source P mc l ev rec ys (i + 1) (some (i : Int)) hd'
+    cases hc : P.cen y l
+    · refine ⟨t', ?_⟩
+      have hb : execS (X P) rec multiCore_Enabled_loop0.rbody
+          (((mceAbs mc l ev t).assign1 (.loc "l0") (.int i)).assign1 .blank y) = .normal (mceAbs mc l ev (some (i : Int))) := by
+        cases t <;> simp [multiCore_Enabled_loop0, Stmt.rbody, mceAbs, hidx, hc]
+      simp only [rangeRun, hb, List.any_cons, hc, Bool.false_or]
+      exact ih
+    · refine ⟨some (i : Int), ?_⟩
+      have hb : execS (X P) rec multiCore_Enabled_loop0.rbody
+          (((mceAbs mc l ev t).assign1 (.loc "l0") (.int i)).assign1 .blank y) =
+            .ret [.bool true] (mceAbs mc l ev (some (i : Int))) := by
+        cases t <;> simp [multiCore_Enabled_loop0, Stmt.rbody, mceAbs, hidx, hc]
+      simp only [rangeRun, hb, List.any_cons, hc, Bool.true_or, if_true]
+
+/-- `multiCore.Enabled(lvl)` ≡ `enabledAny`: some sub-core enables the level -/
+theorem multiCore_Enabled_matches_source (P : Par) (mc : List Val) (l : Int) (ev : List Val) (fuel : Nat) :
+    run (X P) (fuel + 1) "multiCore_Enabled" [.int l] (mcFld mc ev) =
+      .done [.bool (mc.any fun c => P.cen c l)] (mcFld mc ev) := by
+  refine run_of_fin (X P) _ _ Gen.TransCores.multiCore_Enabled [.int l] _ _ _ rfl rfl ?_
+  show (exec (X P) (fuel + 1) multiCore_Enabled_body ⟨[("p0", .int l)], _⟩).fin = _
+  rw [exec_succ]
+  obtain ⟨t', hl⟩ := multiCore_Enabled_loop_matches_source P mc l ev (exec (X P) fuel) mc 0 none (by simp)
+  have hrange : execS (X P) (exec (X P) fuel) multiCore_Enabled_loop0 ⟨[("p0", .int l)], mcFld mc ev⟩ =
+      if mc.any (fun c => P.cen c l) then .ret [.bool true] (mceAbs mc l ev t') else .normal (mceAbs mc l ev t') := by
+    rw [show multiCore_Enabled_loop0 = .range (.loc "l0") .blank (.fld "mc") multiCore_Enabled_loop0.rbody from rfl, execS_range]
+    simpa [mceAbs] using hl
+  cases ha : mc.any (fun c => P.cen c l) <;> cases t' <;>
+    simp [multiCore_Enabled_body, hrange, ha, mceAbs]
+
+end ZapVerif.C05
+
+/-! ## the level guards of `Logger.check` and `SugaredLogger.log/logln` ARE the source (table `Gen/TransLogger.lean`)
+
+Below DPanic a level the core disables has no effect at all: `Logger.check` returns nil without consulting the clock or
+the core's `Check` (the source-level content of `disabled_no_effects`); `SugaredLogger.log` / `logln` return before
+formatting.  At DPanic and above the guard never fires (Panic/Fatal must terminate even when disabled). -/
+namespace ZapVerif.C05
+set_option linter.unusedSimpArgs false
+open ZapVerif ZapVerif.GoMini ZapVerif.TransLogger ZapVerif.Gen.TransLogger
+
+theorem Logger_check_guard_matches_source (P : TransLogger.Par) (l : Int) (hl : l < 3) (hc : P.cen core l = false)
+    (msg name : Bytes) (clock : Val) (dev : Bool) (onPanic onFatal : List Val) (ev : List Val) (fuel : Nat) :
+    run (TransLogger.X P) (fuel + 2) "Logger_check" [.int l, .bytes msg] (logFld core name clock dev onPanic onFatal ev) =
+      .done [.list []] (logFld core name clock dev onPanic onFatal ev) := by
+  refine run_of_fin (TransLogger.X P) _ _ Gen.TransLogger.Logger_check [.int l, .bytes msg] _ _ _ rfl rfl ?_
+  show (exec (TransLogger.X P) (fuel + 2) Logger_check_body ⟨[("p0", .int l), ("p1", .bytes msg)], _⟩).fin = _
+  rw [exec_succ]
+  simp [Logger_check_body, hl, hc]
+
+/-- what the guard of `SugaredLogger.log` / `logln` lets through: everything at DPanic and above, and below that the
+    levels the base core enables; `Sugar.formatCheckWrite` stands for the rest of the function -/
+def sugarSpec (P : TransLogger.Par) (l : Int) : List Val :=
+  if l < 3 ∧ P.cen (.list []) l = false then [] else [Val.list [TransLogger.nm "Sugar.formatCheckWrite", .int l]]
+
+theorem Sugar_log_guard_matches_source (P : TransLogger.Par) (l : Int) (tmpl args ctx : Val) (ev : List Val) (fuel : Nat) :
+    run (TransLogger.X P) (fuel + 1) "Sugar_log" [.int l, tmpl, args, ctx] [("ev", .list ev)] =
+      .done [] [("ev", .list (ev ++ sugarSpec P l))] := by
+  refine run_of_fin (TransLogger.X P) _ _ Gen.TransLogger.Sugar_log [.int l, tmpl, args, ctx] _ _ _ rfl rfl ?_
+  show (exec (TransLogger.X P) (fuel + 1) Sugar_log_body ⟨[("p0", .int l), ("p1", tmpl), ("p2", args), ("p3", ctx)], _⟩).fin = _
+  rw [exec_succ]
+  by_cases h3 : l < 3 <;> cases hc : P.cen (.list []) l <;> simp [Sugar_log_body, sugarSpec, h3, hc, nm_fcw]
+
+theorem Sugar_logln_guard_matches_source (P : TransLogger.Par) (l : Int) (args ctx : Val) (ev : List Val) (fuel : Nat) :
+    run (TransLogger.X P) (fuel + 1) "Sugar_logln" [.int l, args, ctx] [("ev", .list ev)] =
+      .done [] [("ev", .list (ev ++ sugarSpec P l))] := by
+  refine run_of_fin (TransLogger.X P) _ _ Gen.TransLogger.Sugar_logln [.int l, args, ctx] _ _ _ rfl rfl ?_
+  show (exec (TransLogger.X P) (fuel + 1) Sugar_logln_body ⟨[("p0", .int l), ("p1", args), ("p2", ctx)], _⟩).fin = _
+  rw [exec_succ]
+  by_cases h3 : l < 3 <;> cases hc : P.cen (.list []) l <;> simp [Sugar_logln_body, sugarSpec, h3, hc, nm_fcw]
 
 end ZapVerif.C05
